@@ -252,3 +252,14 @@ package types
 //@   ensures len(bytes) == 65 ==> content(result) == content(bytes)
 //@ func (AccountAccessor).IsEmpty   trusted
 //@   modifies nothing
+
+// C15: hashing a decoded transaction never panics, whatever its payload -- the hash is taken of network-supplied transactions
+// before their bodies are verified (transaction-root check of a received block, message handlers, pool).
+//@ func calcBoxSubTxHashSet
+//@   props C15
+//@   invariant @loop 0: 0 <= $k && $k <= len(subTxList)
+//@   nopanic
+//@ func getHashData
+//@   props C15
+//@   requires tx != nil
+//@   nopanic
